@@ -8,6 +8,7 @@ CONSTANTS
   NVals = 1
   ShiftMag = {1}
   FreeB = FALSE
+  NPart = 12
 INIT MCInit
 NEXT MCNext
 INVARIANTS NoOverlap NoTopStored SizesPositive ClearTopNoop ObserversAgree MergeAlgebra MergeClause CountCases ReadClauses
